@@ -60,6 +60,7 @@ type c13Scenario struct {
 	Staple     bool     `json:"staple"`    // relay = zcrypto TLS server stapling the response
 	ClockOffS  int      `json:"clock_off_s"`
 	SigAlg     string   `json:"sig_alg,omitempty"` // template.SignatureAlgorithm: "" (default for the key) | sha1 | sha256 | sha384 | sha512
+	SubNs      int      `json:"sub_ns,omitempty"`  // sub-second part added to the template's times (the wire carries whole seconds)
 	Fault      c13Fault `json:"fault"`
 }
 
@@ -101,6 +102,9 @@ func genC13(seed uint64, tier string) any {
 	}
 	if r.Chance(1, 3) {
 		sc.SigAlg = []string{"sha1", "sha256", "sha384", "sha512"}[r.Intn(4)]
+	}
+	if r.Chance(1, 2) {
+		sc.SubNs = []int{1, 499_999_999, 500_000_000, 500_000_001, 750_000_000, 999_999_999}[r.Intn(6)]
 	}
 	return sc
 }
@@ -147,6 +151,7 @@ const (
 	c13CertTBS  = c13Cert + ".0"
 	c13CertSig  = c13Cert + ".2"
 	c13OctetStr = ".1.0.1"
+	c13Status   = ".0" // responseStatus ENUMERATED of the outer OCSPResponse
 )
 
 func pathUnder(path, prefix string) bool {
@@ -163,7 +168,9 @@ func c13MustReject(kind, label string) bool {
 		return true
 	}
 	if kind == "flip" || kind == "set" {
-		return label == c13Sig+":val" || label == c13CertSig+":val" || label == c13SigOID+":val"
+		// (the response status is outside every signature, but it says whether there is a response at all: a
+		// signed response re-labelled with another status must not come back as a successful one)
+		return label == c13Sig+":val" || label == c13CertSig+":val" || label == c13SigOID+":val" || label == c13Status+":val"
 	}
 	return false
 }
@@ -412,10 +419,11 @@ func c13Run(t *testing.T, sc *c13Scenario, p *c13PKI, o *Outcome) *Failure {
 	o.count("probe.request_roundtrip", 1)
 
 	// ---- responder
-	tmpl := ocsp.Response{Status: sc.Status, SerialNumber: big.NewInt(sc.Serial), ThisUpdate: now.Add(-time.Duration(sc.ThisOffS) * time.Second), NextUpdate: now.Add(time.Duration(sc.NextOffS) * time.Second),
+	sub := time.Duration(sc.SubNs)
+	tmpl := ocsp.Response{Status: sc.Status, SerialNumber: big.NewInt(sc.Serial), ThisUpdate: now.Add(-time.Duration(sc.ThisOffS)*time.Second + sub), NextUpdate: now.Add(time.Duration(sc.NextOffS)*time.Second + sub),
 		IssuerHash: crypto.Hash(sc.Hash)}
 	if sc.Status == ocsp.Revoked {
-		tmpl.RevokedAt = now.Add(-time.Duration(sc.RevOffS) * time.Second)
+		tmpl.RevokedAt = now.Add(-time.Duration(sc.RevOffS)*time.Second + sub)
 		tmpl.RevocationReason = crl.RevocationReasonCode(sc.Reason)
 	}
 	if sc.ExtraExt {
@@ -483,14 +491,15 @@ func c13Run(t *testing.T, sc *c13Scenario, p *c13PKI, o *Outcome) *Failure {
 		delivered = append([]byte(nil), respDER...)
 		off := f.Off % len(delivered)
 		if f.N%3 == 0 {
-			// bias: the first value octet of one of the two signatures (the BIT STRING's unused-bits count)
-			if n := tree.find([]string{c13Sig, c13CertSig}[f.Bit%2]); n != nil {
+			// bias: the first value octet of one of the two signatures (the BIT STRING's unused-bits count), or
+			// the response status
+			if n := tree.find([]string{c13Sig, c13CertSig, c13Status}[f.Bit%3]); n != nil {
 				off = n.HdrEnd
 			}
 		}
 		v := byte(f.N)
 		if f.N%3 == 0 {
-			v = byte(1 + f.N%7)
+			v = byte(1 + f.N%9)
 		}
 		if v == delivered[off] {
 			v ^= 0x01
@@ -698,6 +707,8 @@ func c13Place(label string) string {
 		return "embedded certificate signature"
 	case pathUnder(path, c13SigOID):
 		return "response signature algorithm"
+	case pathUnder(path, c13Status):
+		return "response status"
 	}
 	return "unsigned wrapper " + path
 }
